@@ -10,6 +10,8 @@ fn main() {
         ("fe_fuzz.rs", "fuzz/fuzz_targets/parse.rs"),
         ("fe_itest.rs", "tests/integration_tests.rs"),
         ("fe_golang.rs", "etc/correctness/test-parse-golang/main.rs"),
+        ("fe_random.rs", "etc/correctness/test-parse-random/_common.rs"),
+        ("fe_unittests.rs", "etc/correctness/test-parse-unittests/main.rs"),
     ];
     for (dst, src) in files.iter() {
         let p = PathBuf::from(&repo).join(src);
@@ -19,6 +21,16 @@ fn main() {
         let mut cleaned = String::new();
         for line in text.lines() {
             let t = line.trim_start();
+            // test-parse-unittests: keep only the front-end part (the rest needs serde / toml)
+            if *dst == "fe_unittests.rs" && t.starts_with("#[derive(Debug, Deserialize)]") {
+                break;
+            }
+            if t.starts_with("extern crate serde_derive") || t.starts_with("extern crate toml") || t == "#[macro_use]" {
+                cleaned.push_str("// ");
+                cleaned.push_str(t);
+                cleaned.push('\n');
+                continue;
+            }
             if t.starts_with("//!") {
                 cleaned.push_str("//");
                 cleaned.push_str(&t[3..]);
